@@ -24,7 +24,8 @@ RULE = ("a case is a sequence of <= 5 calls on one Parallel object with return_a
         "scripted backend (n_jobs 2-4, batch_size 1-3, all pre_dispatch forms), the check choosing the completion order batch "
         "by batch and, between completions, one consumer action: pull every due result, close(), drop + gc, call again while "
         "running, call again after exhaustion, leave the with block while the generator of an unfinished run is alive and call again; plus gated runs on threading and loky with batch_size=1; "
-        "distinct_nontrivial counts distinct (configuration, completion order, consumer action sequence)")
+        "distinct_nontrivial counts distinct (configuration, completion order, consumer action sequence)"
+        " A quarter of the abandon sequences run with warnings turned into errors; closes from another thread hold joblib's clean-up thread back while the object is called again.")
 ASSUMPTIONS = [
     "joblib's unit of completion is the batch: result k is due once the batch holding k and all earlier batches have "
     "completed and their callbacks returned (with batch_size=1 this is the statement verbatim)",
